@@ -179,6 +179,40 @@ def finish8 (s : U8) : Bytes := if s.pend.isEmpty then [] else utf8Encode replac
 
 def utf8Machine : Machine := { σ := U8, init := {}, step := step8, finish := finish8 }
 
+/-! ### encoding_rs' Shift_JIS decoder (WHATWG "Shift_JIS decoder"), parametric in index jis0208 -/
+
+def sjisIsLead (b : Nat) : Bool := (0x81 ≤ b && b ≤ 0x9F) || (0xE0 ≤ b && b ≤ 0xFC)
+
+/-- the code point of the pair (lead, byte), if any: pointer arithmetic, the user-defined range, the index -/
+def sjisPair (idx : Nat → Option Nat) (lead byte : Nat) : Option Nat :=
+  if (0x40 ≤ byte && byte ≤ 0x7E) || (0x80 ≤ byte && byte ≤ 0xFC) then
+    let offset := if byte < 0x7F then 0x40 else 0x41
+    let leadOffset := if lead < 0xA0 then 0x81 else 0xC1
+    let ptr := (lead - leadOffset) * 188 + byte - offset
+    if 8836 ≤ ptr && ptr ≤ 10715 then some (0xE000 - 8836 + ptr) else idx ptr
+  else none
+
+/-- a byte seen with no lead pending -/
+def sjisStart (b : Nat) : Option Nat × Bytes :=
+  if b ≤ 0x80 then (none, utf8Encode b)
+  else if 0xA1 ≤ b && b ≤ 0xDF then (none, utf8Encode (0xFF61 - 0xA1 + b))
+  else if sjisIsLead b then (some b, [])
+  else (none, utf8Encode replacement)
+
+def sjisStep (idx : Nat → Option Nat) (s : Option Nat) (b : Nat) : Option Nat × Bytes :=
+  match s with
+  | none => sjisStart b
+  | some lead =>
+    match sjisPair idx lead b with
+    | some c => (none, utf8Encode c)
+    | none =>
+      -- error; an ASCII byte is put back and looked at afresh
+      if b < 0x80 then (none, utf8Encode replacement ++ (sjisStart b).2) else (none, utf8Encode replacement)
+
+def sjisMachine (idx : Nat → Option Nat) : Machine :=
+  { σ := Option Nat, init := none, step := sjisStep idx,
+    finish := fun s => if s.isSome then utf8Encode replacement else [] }
+
 /-! ### a single-byte table decoder (windows-1252 and friends): no state -/
 
 def tableMachine (table : Nat → Nat) : Machine :=
@@ -202,6 +236,10 @@ def dropBytes : Nat → List Bytes → List Bytes
     if n + 1 < c.length then c.drop (n + 1) :: rest
     else dropBytes (n + 1 - c.length) rest
 
+/-- the builder flags ripgrep's searcher fixes: `.utf8_passthru(true)`, `.bom_override(true)` (source-anchored) -/
+abbrev utf8Passthru : Bool := true
+abbrev bomOverride : Bool := true
+
 structure Plan where
   strip : Nat                   -- bytes the peeker removes
   decoder : Option Enc          -- `none`: reads go straight to the underlying reader
@@ -218,13 +256,26 @@ def plan (c : Cfg) (first3 : Bytes) : Plan :=
     | some (.utf8, n) => ⟨n, c.label⟩
     | some (e, n) => ⟨n, some e⟩
 
+/-- `build_with_buffer` + `detect` for arbitrary builder flags (`strip_bom` = `bom_sniffing` as in the searcher):
+`has_detected = !bom_sniffing || (!bom_override && encoding.is_some())`; a UTF-8 mark builds no decoder
+only under `utf8_passthru`. `plan` is this with ripgrep's fixed flags (`plan_is_ripgrep_config`). -/
+def planGeneral (passthru override : Bool) (c : Cfg) (first3 : Bytes) : Plan :=
+  if !c.bomSniffing || (!override && c.label.isSome) then ⟨0, c.label⟩
+  else match bomOf first3 with
+    | none => ⟨0, c.label⟩
+    | some (.utf8, n) => if passthru then ⟨n, c.label⟩ else ⟨n, some .utf8⟩
+    | some (e, n) => ⟨n, some e⟩
+
 /-- `fill`: every read of the underlying reader delivers at most the free part of the scratch buffer. -/
 def splitCap (cap : Nat) (fuel : Nat) (c : Bytes) : List Bytes :=
   match fuel with
   | 0 => [c]
   | fuel + 1 => if c.length ≤ cap ∨ cap = 0 then [c] else c.take cap :: splitCap cap fuel (c.drop cap)
 
-def scratch : Nat := 8192
+/-- `decode_buffer: RefCell::new(vec![0; 8 * (1 << 10)])` (source-anchored) -/
+abbrev scratchKiB : Nat := 8
+abbrev kiBShift : Nat := 10
+def scratch : Nat := scratchKiB * 2 ^ kiBShift
 
 /-- What the searcher reads from `DecodeReaderBytes` when the underlying reader delivers `chunks`. -/
 def readerOutput (c : Cfg) (M : Enc → Machine) (chunks : List Bytes) : Bytes :=
